@@ -13,6 +13,7 @@ func TestVerif(t *testing.T) {
 		"C05": C05{},
 		"C09": C09{},
 		"C11": C11{},
+		"C15": C15{},
 		"C19": C19{},
 	})
 }
